@@ -1,6 +1,7 @@
 package tex
 
 import (
+	"encoding/base64"
 	"time"
 
 	symx "github.com/pinealctx/neptune/zzsymx"
@@ -264,5 +265,34 @@ func VerifH_RTDuration() {
 	var back Duration
 	err = back.UnmarshalJSON(b)
 	symx.Assert(err == nil && back.Duration() == d, "Duration: decoding the encoder's output gives back the value")
+	symx.Reach("end")
+}
+
+// C20/H2d': base64 text that is not encoder output (line breaks, padding, junk): Scan either fails or yields
+// exactly the bytes the text denotes - what the standard unpadded decoder makes of it.
+func VerifH_TokBase64() {
+	n := symx.Param("len", 4)
+	b := make([]byte, n)
+	for i := range b {
+		b[i] = symx.OneOf("ch", "AQgz+/\n\r= ")
+	}
+	text := string(b)
+	want, werr := base64.RawStdEncoding.DecodeString(text)
+	var got Base64Bytes
+	var err error
+	if symx.Bool("asBytes") {
+		err = got.Scan([]byte(text))
+	} else {
+		err = got.Scan(text)
+	}
+	symx.Assert((err == nil) == (werr == nil), "Base64Bytes: accepted exactly the texts the unpadded standard decoding accepts")
+	if err == nil && werr == nil {
+		symx.Assert(len(got) == len(want), "Base64Bytes: exactly the bytes the text denotes (length)")
+		for i := range want {
+			if i < len(got) {
+				symx.Assert(got[i] == want[i], "Base64Bytes: exactly the bytes the text denotes")
+			}
+		}
+	}
 	symx.Reach("end")
 }
